@@ -42,7 +42,7 @@ theorem findPath_none (d : Dir) (names : List String) (h : findPath d names = no
 
 /-- Frame: a successful load leaves every pre-existing file as it was and creates nothing except
 the spike-cluster copy and the inverse whitening matrix, each exactly when it was missing. -/
-theorem load_frame (inv : Arr → Arr) (d : Dir) (v : View) (d' : Dir) (h : load inv d = .ok (v, d')) :
+theorem load_frame (inv : Arr → Arr) {one : Cell} (d : Dir) (v : View) (d' : Dir) (h : load inv d one = .ok (v, d')) :
     (∀ name a, d.lookup name = some a → d'.lookup name = some a) ∧
     (∀ name ∈ d'.map (·.1), name ∈ d.map (·.1) ∨ name = "spike_clusters.npy" ∨ name = "whitening_mat_inv.npy") ∧
     (("spike_clusters.npy" ∈ d'.map (·.1) ∧ "spike_clusters.npy" ∉ d.map (·.1)) ↔
@@ -53,15 +53,15 @@ theorem load_frame (inv : Arr → Arr) (d : Dir) (v : View) (d' : Dir) (h : load
   Lemmas.load_frame inv d v d' h
 
 /-- Loading rejects non-monotonic spike times (KiloSort layout). -/
-theorem load_rejects_nonmonotone (inv : Arr → Arr) (d : Dir) (s : Arr) (hs : d.lookup "spike_times.npy" = some s)
-    (hm : monotone (scrub s).data = false) : load inv d = .error .nonMonotone :=
+theorem load_rejects_nonmonotone (inv : Arr → Arr) {one : Cell} (d : Dir) (s : Arr) (hs : d.lookup "spike_times.npy" = some s)
+    (hm : monotone (scrub s).data = false) : load inv d one = .error .nonMonotone :=
   Lemmas.load_rejects_nonmonotone inv d s hs hm
 
 /-- A directory holding both a KiloSort-named and an ALF-named spike-cluster file is not loaded (the
 loader accepts only one). -/
-theorem load_rejects_two_cluster_files (inv : Arr → Arr) (d : Dir)
+theorem load_rejects_two_cluster_files (inv : Arr → Arr) {one : Cell} (d : Dir)
     (h1 : (findPath d ["spike_clusters.npy"]).isSome) (h2 : (findPath d ["spikes.clusters*.npy"]).isSome)
-    (v : View) (d' : Dir) : load inv d ≠ .ok (v, d') :=
+    (v : View) (d' : Dir) : load inv d one ≠ .ok (v, d') :=
   Lemmas.load_rejects_two_cluster_files inv d h1 h2 v d'
 
 /-- NaN/inf are replaced by zero in fully loaded arrays, finite cells and the shape are kept. -/
@@ -73,7 +73,7 @@ theorem scrub_spec (a : Arr) :
 
 /-- When no spike-cluster file exists the loaded clusters are the loaded templates, and the file
 created is a byte copy of the spike-template file. -/
-theorem clusters_default (inv : Arr → Arr) (d : Dir) (v : View) (d' : Dir) (h : load inv d = .ok (v, d'))
+theorem clusters_default (inv : Arr → Arr) {one : Cell} (d : Dir) (v : View) (d' : Dir) (h : load inv d one = .ok (v, d'))
     (hn : findPath d ["spike_clusters.npy", "spikes.clusters*.npy"] = none) :
     v.spikeClusters = v.spikeTemplates ∧
     ∃ f, findPath d ["spike_templates.npy", "spikes.templates*.npy"] = some f ∧
@@ -81,19 +81,22 @@ theorem clusters_default (inv : Arr → Arr) (d : Dir) (v : View) (d' : Dir) (h 
   Lemmas.clusters_default inv d v d' h hn
 
 /-- **wmi_default** ("the whitening matrix and its inverse … the documented default substituted"; `np.linalg.inv` is
-the parameter `inv`): when the directory holds no `whitening_mat_inv.npy` the view carries no stored inverse and the
-file the loader writes holds exactly what `inv` returned on the whitening matrix THE VIEW SHOWS (`_compute_wmi`,
-model.py:743-751, returns the same array it writes); without a whitening matrix the model writes the empty token
-array that stands for the inverse of the identity. -/
-theorem wmi_default (inv : Arr → Arr) (d : Dir) (v : View) (d' : Dir) (h : load inv d = .ok (v, d'))
+the parameter `inv`, `one` the cell standing for 1.0): when the directory holds no `whitening_mat_inv.npy` the view
+carries no stored inverse and the file the loader writes holds exactly what `inv` returned on the whitening matrix WITH
+ITS DEFAULT — the matrix the view shows, or `np.eye(nc)` when there is no `whitening_mat.npy` (model.py:438-442,
+`nc = channel_map.shape[0]`, model.py:383; `_compute_wmi`, model.py:756-761, returns the same array it writes).  So a
+dataset without whitening matrix leaves `inv (eye one nc)` (for the real `inv`: the identity), and the NEXT session
+loads it as a stored `(nc, nc)` inverse (examples after `exShow`; the general statement `load_idempotent` is not proved).  (The real code asserts `wm.shape == (nc, nc)` BEFORE it
+computes the inverse, model.py:443; `load` does not check shapes — `loadFull` does, and returns no directory then.) -/
+theorem wmi_default (inv : Arr → Arr) (one : Cell) (d : Dir) (v : View) (d' : Dir) (h : load inv d one = .ok (v, d'))
     (hn : d.lookup "whitening_mat_inv.npy" = none) :
     v.wmi = none ∧
-    d'.lookup "whitening_mat_inv.npy" = some (match v.wm with | some w => inv w | none => ⟨[], []⟩) :=
+    d'.lookup "whitening_mat_inv.npy" = some (inv (v.wm.getD (eye one (v.channelMap.shape.headD 0)))) :=
   Lemmas.wmi_default inv d v d' h hn
 
 /-- … and a stored inverse is shown as it is stored (at least 2-D, squeezed, scrubbed); by `load_frame` nothing is
 written for it. -/
-theorem wmi_stored (inv : Arr → Arr) (d : Dir) (v : View) (d' : Dir) (h : load inv d = .ok (v, d'))
+theorem wmi_stored (inv : Arr → Arr) {one : Cell} (d : Dir) (v : View) (d' : Dir) (h : load inv d one = .ok (v, d'))
     (a : Arr) (ha : d.lookup "whitening_mat_inv.npy" = some a) :
     v.wmi = some (atleast 2 (squeeze (scrub a))) :=
   Lemmas.wmi_stored inv d v d' h a ha
@@ -102,11 +105,11 @@ theorem wmi_stored (inv : Arr → Arr) (d : Dir) (v : View) (d' : Dir) (h : load
 and the ALF-named directory holding the same arrays (plus any non-decreasing spike times in seconds)
 load to the same samples, amplitudes, templates, clusters, channel tables, waveforms and matrices;
 only the time source differs (stored seconds instead of samples over rate). -/
-theorem load_layout_independent (inv : Arr → Arr) (d : Dir) (t : Arr)
+theorem load_layout_independent (inv : Arr → Arr) {one : Cell} (d : Dir) (t : Arr)
     (hks : ∀ n ∈ d.map (·.1), n ∈ ksNames)
     (ht : monotone (scrub t).data = true)
-    (v : View) (d' : Dir) (h : load inv d = .ok (v, d')) :
-    ∃ v' d'', load inv (toALF d t) = .ok (v', d'') ∧
+    (v : View) (d' : Dir) (h : load inv d one = .ok (v, d')) :
+    ∃ v' d'', load inv (toALF d t) one = .ok (v', d'') ∧
       v'.times = .stored (squeeze (scrub t)) ∧ v'.samples = v.samples ∧
       v'.amplitudes = v.amplitudes ∧ v'.spikeTemplates = v.spikeTemplates ∧
       v'.spikeClusters = v.spikeClusters ∧ v'.channelMap = v.channelMap ∧
@@ -126,14 +129,14 @@ grown by the files the loader creates on the way —, and it is `none` (the docu
 force) exactly when no pattern matches any file.  Spike clusters without a cluster file are the
 transform of the winning spike-template file; template columns are only looked for when templates
 exist.  Holds for every directory (any file names, any number of candidates, both layouts mixed). -/
-theorem load_values (inv : Arr → Arr) (d : Dir) (v : View) (d' : Dir) (h : load inv d = .ok (v, d')) :
+theorem load_values (inv : Arr → Arr) {one : Cell} (d : Dir) (v : View) (d' : Dir) (h : load inv d one = .ok (v, d')) :
     ∀ a : Attr, Expected d a (v.attr a) :=
   Lemmas.load_values inv d v d' h
 
 /-- The first two rows of the table: spike samples / times come from `spike_times.npy` when it exists
 (times = samples over rate), otherwise from the winning `spikes.times*.npy` (seconds as stored) with
 the samples of the winning `spikes.samples*.npy` or, without such a file, the rounded times. -/
-theorem load_time_sources (inv : Arr → Arr) (d : Dir) (v : View) (d' : Dir) (h : load inv d = .ok (v, d')) :
+theorem load_time_sources (inv : Arr → Arr) {one : Cell} (d : Dir) (v : View) (d' : Dir) (h : load inv d one = .ok (v, d')) :
     ExpectedTimes d v.times v.samples :=
   Lemmas.load_times inv d v d' h
 
@@ -145,8 +148,8 @@ theorem wins_unique (d : Dir) (pats : List String) (f g : String) (hu : GlobUniq
 
 /-- Column "when absent = error": a directory without spike templates, channel map or channel
 positions (under either name) is not loaded. -/
-theorem load_requires_mandatory (inv : Arr → Arr) (d : Dir) (a : Attr) (hm : a.mandatory = true)
-    (ha : Absent d a.files) (v : View) (d' : Dir) : load inv d ≠ .ok (v, d') :=
+theorem load_requires_mandatory (inv : Arr → Arr) {one : Cell} (d : Dir) (a : Attr) (hm : a.mandatory = true)
+    (ha : Absent d a.files) (v : View) (d' : Dir) : load inv d one ≠ .ok (v, d') :=
   Lemmas.load_requires_mandatory inv d a hm ha v d'
 
 /-! ## Rejection of non-monotonic spike times, ALF layout -/
@@ -155,10 +158,10 @@ theorem load_requires_mandatory (inv : Arr → Arr) (d : Dir) (a : Attr) (hm : a
 (only) file matching `spikes.times*.npy`, its scrubbed seconds not non-decreasing ⇒ `ValueError`.
 (The real code raises the same error; a NaN among the seconds is scrubbed to 0 first, so
 `[1, NaN, 2]` is rejected as `[1, 0, 2]`.) -/
-theorem load_rejects_nonmonotone_alf (inv : Arr → Arr) (d : Dir) (f : String) (t : Arr)
+theorem load_rejects_nonmonotone_alf (inv : Arr → Arr) {one : Cell} (d : Dir) (f : String) (t : Arr)
     (hks : "spike_times.npy" ∉ names d) (hu : GlobUnique d ["spikes.times*.npy"])
     (hw : Wins d ["spikes.times*.npy"] f) (hl : d.lookup f = some t)
-    (hm : monotone (scrub t).data = false) : load inv d = .error .nonMonotone :=
+    (hm : monotone (scrub t).data = false) : load inv d one = .error .nonMonotone :=
   Lemmas.load_rejects_nonmonotone_alf inv d f t hks hu hw hl hm
 
 /-- what the loader's test `np.all(np.diff(x) >= 0)` decides, on numeric cells -/
@@ -205,7 +208,7 @@ variable {β : Type} (inv : Arr → Arr) (rate : Rat) (tden ncd : Nat) (one : Ce
 /-- the array part of a full load is a `load`: `load_frame`, `load_values`, `clusters_default`, …
 apply to `fv.base` and `d'` -/
 theorem loadFull_base (h : loadFull inv rate tden ncd one raw d = .ok (fv, d')) :
-    load inv d = .ok (fv.base, d') :=
+    load inv d one = .ok (fv.base, d') :=
   Lemmas.loadFull_base inv rate tden ncd one raw d fv d' h
 
 /-- Numeric spike samples and times.  KiloSort layout: the samples are the (scrubbed) cells of
@@ -232,6 +235,18 @@ theorem load_times_sorted (h : loadFull inv rate tden ncd one raw d = .ok (fv, d
     (hr : 0 < rate) (htd : 0 < tden) :
     ∀ i (hi : i + 1 < fv.spikeTimes.length), fv.spikeTimes[i] ≤ fv.spikeTimes[i + 1] :=
   Lemmas.loadFull_times_sorted inv rate tden ncd one raw d fv d' h hr htd
+
+/-- **load_wmi** (the inverse whitening matrix of a loaded model, with its default — `fv.wmi`, model.py:444-447): a stored
+`whitening_mat_inv.npy` is shown as stored (at least 2-D, squeezed, scrubbed) and is left in place; without one the
+model holds what `inv` returned on THE WHITENING MATRIX THE MODEL SHOWS (`fv.wm`: the stored matrix or, `load_defaults`,
+the identity `(nc, nc)`), and the same array is what the loader wrote to `whitening_mat_inv.npy` — for the real
+`np.linalg.inv` and no whitening matrix that is the identity, which the next session reads back as a stored inverse. -/
+theorem load_wmi (h : loadFull inv rate tden ncd one raw d = .ok (fv, d')) :
+    (∀ a, d.lookup "whitening_mat_inv.npy" = some a →
+      fv.wmi = atleast 2 (squeeze (scrub a)) ∧ d'.lookup "whitening_mat_inv.npy" = some a) ∧
+    (d.lookup "whitening_mat_inv.npy" = none →
+      fv.wmi = inv fv.wm ∧ d'.lookup "whitening_mat_inv.npy" = some (inv fv.wm)) :=
+  Lemmas.loadFull_wmi inv rate tden ncd one raw d fv d' h
 
 /-- Rows with a concrete default: shanks and probes are the winning file or zeros `(nc,)`, the
 whitening matrix the file or the identity `(nc, nc)`, the similarity matrix the file or zeros
@@ -391,7 +406,7 @@ theorem load_template_features (d : Dir) (nt : Nat) (s : Sparse) (h : loadTempla
 
 /-- the files created while loading do not change what the feature tables are read from: any
 literal name other than the two created ones reads the same in `d'` as in `d` -/
-theorem features_frame (inv : Arr → Arr) (d : Dir) (v : View) (d' : Dir) (h : load inv d = .ok (v, d'))
+theorem features_frame (inv : Arr → Arr) {one : Cell} (d : Dir) (v : View) (d' : Dir) (h : load inv d one = .ok (v, d'))
     (name : String) (hn : ∀ g ∈ Lemmas.createdNames, globMatch name g = false) :
     readFile d' [name] = readFile d [name] :=
   Lemmas.readFile_features_frame inv d v d' h name hn
@@ -459,6 +474,19 @@ example : exShow (fun r => r.2.map (·.1)) =
        "channels.rawInd.npy", "channels.localCoordinates.npy", "templates.waveforms.p0.npy",
        "spike_depth.npy", "spike_wrong.npy", "spike_clusters.npy", "whitening_mat_inv.npy"]) := by
   decide +kernel
+
+-- `wmi_default` / `load_wmi` on `exAlf` (no whitening matrix, no inverse, two channels, `inv := id` as the inverse of the
+-- identity): the model holds and WRITES the identity `(2, 2)` …
+example : Attr.wmi.files = ["whitening_mat_inv.npy"] ∧ exAlf.lookup "whitening_mat_inv.npy" = none := by decide
+example : exShow (fun r => (r.1.base.wmi, r.1.wmi, r.2.lookup "whitening_mat_inv.npy")) =
+    some (none, ⟨[2, 2], [.num 4, .num 0, .num 0, .num 4]⟩, some ⟨[2, 2], [.num 4, .num 0, .num 0, .num 4]⟩) := by
+  decide +kernel
+-- … and a SECOND session on the directory the first one left loads (the `(nc, nc)` check passes on the written file),
+-- shows the same inverse as a stored one, and creates nothing more
+example : (exShow fun r => match loadFull (β := Nat) id 1000 2 3 (.num 4) (some exRaw) r.2 with
+      | .ok r2 => some (r2.1.base.wmi, r2.1.wmi == r.1.wmi, r2.2 == r.2, r2.1.spikeTimes == r.1.spikeTimes)
+      | .error _ => none) =
+    some (some (some ⟨[2, 2], [.num 4, .num 0, .num 0, .num 4]⟩, true, true, true)) := by decide +kernel
 
 example : [1/2, 3/2, 5/2, 7/2, -1/2, -3/2, 7/4, 2].map roundHalfEven = [0, 2, 2, 4, 0, -2, 2, 2] := by
   decide +kernel
@@ -548,7 +576,7 @@ unchanged; every name of `d'` is a name of `d` or one of the two; a `spike_clust
 both names and holds the contents of the winning spike-template file; `whitening_mat_inv.npy` is new or as it was; and at
 most one file per missing name was added. -/
 theorem load_frame_any_outcome (inv : Arr → Arr) (bad : List String) (d : Dir) :
-    let d' := (loadAny inv bad d).2
+    let d' := (loadAny inv bad d one).2
     (∀ name a, d.lookup name = some a → d'.lookup name = some a) ∧
     (∀ name ∈ d'.map (·.1), name ∈ d.map (·.1) ∨ name = "spike_clusters.npy" ∨ name = "whitening_mat_inv.npy") ∧
     ("spike_clusters.npy" ∉ d.map (·.1) → "spike_clusters.npy" ∈ d'.map (·.1) →
@@ -566,15 +594,15 @@ failure that `_load_data` raises before model.py:372 (no spike-time / spike-temp
 spike train, a refused spike-template dtype) leave the directory EXACTLY as it was (nothing created at all).  A missing
 channel map / positions file and a refused channel-map / template dtype are detected after `_load_spike_clusters` has
 made its copy: `load_frame_any_outcome` applies, the `example` below shows the copy left behind (real code: the same). -/
-theorem load_rejection_leaves_directory (inv : Arr → Arr) (bad : List String) (d : Dir) (e : AnyErr)
-    (h : (loadAny inv bad d).1 = .error e) (he : e.early = true) : (loadAny inv bad d).2 = d :=
+theorem load_rejection_leaves_directory (inv : Arr → Arr) {one : Cell} (bad : List String) (d : Dir) (e : AnyErr)
+    (h : (loadAny inv bad d one).1 = .error e) (he : e.early = true) : (loadAny inv bad d one).2 = d :=
   Lemmas.loadAny_early_unchanged inv bad d e h he
 
 /-- **loadAny_is_load**: a successful `loadAny` IS a successful `load` with the same view and directory (all theorems about
 `load` / `loadFull` apply to it), and it has at least one spike (the loader refuses an empty spike train: `np.max` of an
 empty array, model.py:608, ValueError — so `spike_times[-1]` of `load_duration` exists). -/
-theorem loadAny_is_load (inv : Arr → Arr) (bad : List String) (d : Dir) (v : View) (d' : Dir)
-    (h : loadAny inv bad d = (.ok v, d')) : load inv d = .ok (v, d') ∧ v.spikeTemplates.data ≠ [] :=
+theorem loadAny_is_load (inv : Arr → Arr) {one : Cell} (bad : List String) (d : Dir) (v : View) (d' : Dir)
+    (h : loadAny inv bad d one = (.ok v, d')) : load inv d one = .ok (v, d') ∧ v.spikeTemplates.data ≠ [] :=
   Lemmas.loadAny_ok inv bad d v d' h
 
 example : AnyErr.early (.load .nonMonotone) = true ∧ AnyErr.early (.load (.conflict "spike clusters")) = true ∧
@@ -601,17 +629,28 @@ example : exAny [] [("spike_times.npy", ⟨[0], []⟩), ("spike_templates.npy", 
     (some .emptyTrain, ["spike_times.npy", "spike_templates.npy"]) := by decide
 
 /-- **load_ids** (`template_ids`, `cluster_ids`, `probes`, `n_probes` — attributes `_load_data` derives with `np.unique`
-from loaded arrays, model.py:369, 376, 404-405; composition with C07's `unique_spec`): each is strictly increasing and
-lists exactly the (non-negative) values that occur in the loaded spike templates / spike clusters / channel probes (the
-probes with their default, zeros, when no file exists); `n_probes` is the number of distinct probes.  Ids are
-non-negative in every dataset (unsigned or counted from 0); `np.unique` would also list a negative value. -/
-theorem load_ids {β : Type} (fv : FullView β) :
-    C07.IsSortedSetOf fv.base.templateIds (fun v => ∃ c ∈ fv.base.spikeTemplates.data, cellInt c = (v : Int)) ∧
-    C07.IsSortedSetOf fv.base.clusterIds (fun v => ∃ c ∈ fv.base.spikeClusters.data, cellInt c = (v : Int)) ∧
-    C07.IsSortedSetOf fv.probes (fun v => ∃ c ∈ fv.channelProbes.data, cellInt c = (v : Int)) ∧
-    fv.nProbes = fv.probes.length :=
-  ⟨Lemmas.uniqueIds_spec _, Lemmas.uniqueIds_spec _, Lemmas.uniqueIds_spec _, rfl⟩
+from loaded arrays, model.py:369, 376, 404-405; composition with C07's `unique_spec`), for a LOADED model `fv`: each list
+is strictly increasing and an integer is listed iff it occurs in the loaded spike templates / spike clusters / channel
+probes — the probes WITH their default (zeros `(nc,)`, model.py:563, when no file exists: third conjunct).
+`hnn`: the ids are non-negative (the model's `uniqueIds` lists only the non-negative values, the real `np.unique` lists a
+negative one as well: outside `hnn` the two differ; real datasets count ids from 0 or store them unsigned).
+`n_probes = len(probes)` (model.py:405) is the definition `FullView.nProbes` and is not restated. -/
+theorem load_ids {β : Type} (inv : Arr → Arr) (rate : Rat) (tden ncd : Nat) (one : Cell)
+    (raw : Option (List (List (List β)))) (d : Dir) (fv : FullView β) (d' : Dir)
+    (h : loadFull inv rate tden ncd one raw d = .ok (fv, d'))
+    (hnn : ∀ c ∈ fv.base.spikeTemplates.data ++ fv.base.spikeClusters.data ++ fv.channelProbes.data, 0 ≤ cellInt c) :
+    IsIdSetOf fv.base.templateIds fv.base.spikeTemplates.data ∧
+    IsIdSetOf fv.base.clusterIds fv.base.spikeClusters.data ∧
+    fv.channelProbes = fv.base.channelProbes.getD (zerosVec (fv.base.channelMap.shape.headD 0)) ∧
+    IsIdSetOf fv.probes fv.channelProbes.data :=
+  Lemmas.loadFull_ids inv rate tden ncd one raw d fv d' h hnn
 
+-- `exAlf` (loaded by `exShow`) meets `hnn`, has no probe file (default zeros) and two templates
+example : exShow (fun r => ((r.1.base.spikeTemplates.data ++ r.1.base.spikeClusters.data ++ r.1.channelProbes.data).all
+      (fun c => decide (0 ≤ cellInt c)), r.1.base.templateIds, r.1.base.clusterIds, r.1.probes, r.1.nProbes)) =
+    some (true, [0, 1], [0, 1], [0], 1) := by decide +kernel
+-- outside `hnn` the model's list is not `np.unique` (which returns [-2, 0, 3]): the hypothesis is needed
+example : uniqueIds ⟨[3], [.num 3, .num (-2), .num 0]⟩ = [0, 3] := by decide
 example : uniqueIds ⟨[5], [.num 3, .num 0, .num 3, .num 7, .num 0]⟩ = [0, 3, 7] := by decide
 
 /-- **load_duration_last** (`load_duration` without its `getD` default): without raw data the duration of a loaded model
@@ -628,7 +667,7 @@ each other (both have shape `(ns,)` by `load_shapes`; a NumPy array holds as man
 theorem load_times_nonempty {β : Type} (inv : Arr → Arr) (bad : List String) (rate : Rat) (tden ncd : Nat) (one : Cell)
     (raw : Option (List (List (List β)))) (d : Dir) (fv : FullView β) (d' : Dir)
     (h : loadFull inv rate tden ncd one raw d = .ok (fv, d'))
-    (hany : loadAny inv bad d = (.ok fv.base, d'))
+    (hany : loadAny inv bad d one = (.ok fv.base, d'))
     (hwf : fv.base.times.arr.data.length = fv.base.spikeTemplates.data.length) : fv.spikeTimes ≠ [] :=
   Lemmas.loadAny_nonempty_times inv bad rate tden ncd one raw d fv d' h hany hwf
 
